@@ -268,8 +268,16 @@ def gen_conc() -> str:
     pc = body[idx["plan_commit"]]
     pw = pc.body[0]
     psto = _calls(pw, "txn.store_stage")
-    if len(psto) != 1 or _kw(psto[0]) or _u(psto[0].args[0]) != "stage":
-        _fail(H, pw, "plan commit is not a single txn.store_stage(stage) without expected_phase")
+    if not psto or _kw(psto[0]) or _u(psto[0].args[0]) != "stage" or not (isinstance(pw.body[0], ast.Expr) and pw.body[0].value is psto[0]):
+        _fail(H, pw, "plan commit does not begin with txn.store_stage(stage) without expected_phase")
+    # besides the stage itself the plan commit may store the synthetic stages planning has just built (new rows, never `stage`)
+    for extra in psto[1:]:
+        holder = [n for n in pw.body if isinstance(n, ast.For) and _u(n.iter) == "new_synthetic_stages" and _u(n.target) == "synthetic"
+                  and len(n.body) == 1 and isinstance(n.body[0], ast.Expr) and n.body[0].value is extra]
+        if not holder or _kw(extra) or _u(extra.args[0]) != "synthetic":
+            _fail(H, extra, "plan commit stores something besides `stage` and the new synthetic stages")
+    if len(psto) > 2:
+        _fail(H, pw, "plan commit has more than two store_stage calls")
     if len(_calls(pw, "txn.mark_message_processed")) != 1:
         _fail(H, pw, "plan commit does not mark the message processed in the same transaction")
     loops = [n for n in pw.body if isinstance(n, ast.For) and _u(n.iter) == "messages_to_push" and _calls(n, "txn.push_message")]
